@@ -344,6 +344,10 @@ func c12ScenarioBody(e *c12Out, tr *poolTracker, desc string) {
 		c12PoolPar(e, tr, desc, f[1])
 	case "E":
 		c12BwRecv(e, tr, desc, f[1])
+	case "G":
+		c12GiveUp(e, tr, desc, f[1])
+	case "K":
+		c12PingLife(e, tr, desc, f[1])
 	}
 }
 
@@ -403,7 +407,12 @@ func runC12(a runArgs) error {
 	}
 	more := c12MoreDescriptors(NewRng(rng.U64()), thorough)
 	// E comes first among the newer families: short sequential scripts (the run stops after five scenarios with a violation)
-	for _, d := range c12BwDescriptors(NewRng(rng.U64()), thorough) {
+	bwDescs := c12BwDescriptors(NewRng(rng.U64()), thorough)
+	// G and K (accesses to released messages): short deterministic scripts, before the long families
+	for _, d := range c12UseDescriptors(NewRng(rng.U64()), thorough) {
+		c12Scenario(e, tr, d)
+	}
+	for _, d := range bwDescs {
 		c12Scenario(e, tr, d)
 	}
 	for _, d := range more {
